@@ -473,4 +473,35 @@ MUTANTS = [
     {"id": "c17-first-special-case", "props": ["C17"], "edits": [("src/errors/json.rs", "    let mut kinds = kinds.to_owned();", "    if kinds.first() == Some(&ValueKind::Map) && kinds.len() == 2 { return \"an object or something\".to_owned(); }\n    let mut kinds = kinds.to_owned();")]},
     {"id": "c17-float-is-float", "props": ["C17"], "edits": [("src/errors/json.rs", "            ValueKind::Float => \"a number\",", "            ValueKind::Float => \"a float\",")]},
     {"id": "c17-unstable-sort-by-dup-key", "props": ["C17"], "edits": [("src/errors/json.rs", "    kinds.sort_by_key(order);", "    kinds.sort_by_key(|k| order(k) / 2);")]},
+    # ------------------------------------------------------------------ C13
+    {"id": "c13-kind-i64-first", "props": ["C13"], "edits": [("src/serde_json.rs", """                if n.is_u64() {
+                    ValueKind::Integer
+                } else if n.is_i64() {
+                    ValueKind::NegativeInteger""", """                if n.is_i64() {
+                    ValueKind::NegativeInteger
+                } else if n.is_u64() {
+                    ValueKind::Integer""")]},
+    {"id": "c13-as-i64-to-integer", "props": ["C13"], "edits": [("src/serde_json.rs", """                } else if let Some(n) = n.as_i64() {
+                    Value::NegativeInteger(n)""", """                } else if let Some(n) = n.as_i64() {
+                    Value::Integer(n as u64)""")]},
+    {"id": "c13-from-drops-null-entries", "props": ["C13"], "edits": [("src/serde_json.rs", """            Value::Map(m) => m
+                .into_iter()
+                .map(|(k, v)| (k, JValue::from(v.into_value())))""", """            Value::Map(m) => m
+                .into_iter()
+                .map(|(k, v)| (k, JValue::from(v.into_value())))
+                .filter(|(_, v)| !v.is_null())""")]},
+    {"id": "c13-deserr-integer-as-i64", "props": ["C13"], "edits": [("src/serde_json.rs", "            Value::Integer(x) => JValue::Number(Number::from(x)),\n            Value::NegativeInteger(x) => JValue::Number(Number::from(x)),\n            Value::Float(f) => match", "            Value::Integer(x) => JValue::Number(Number::from(x as i64)),\n            Value::NegativeInteger(x) => JValue::Number(Number::from(x)),\n            Value::Float(f) => match")]},
+    {"id": "c13-kind-always-float", "props": ["C13"], "edits": [("src/serde_json.rs", """                if n.is_u64() {
+                    ValueKind::Integer
+                } else if n.is_i64() {
+                    ValueKind::NegativeInteger
+                } else if n.is_f64() {""", """                if n.is_u64() && false {
+                    ValueKind::Integer
+                } else if n.is_i64() && false {
+                    ValueKind::NegativeInteger
+                } else if n.is_f64() || true {""")]},
+    {"id": "c13-bool-to-string", "props": ["C13"], "edits": [("src/serde_json.rs", "            Value::Boolean(b) => JValue::Bool(b),\n            Value::Integer(n) => JValue::Number(Number::from(n)),", "            Value::Boolean(b) => JValue::String(b.to_string()),\n            Value::Integer(n) => JValue::Number(Number::from(n)),")]},
+    {"id": "c13-from-array-rev", "props": ["C13"], "edits": [("src/serde_json.rs", "                s.into_iter()\n                    .map(IntoValue::into_value)", "                Sequence::into_iter(s)\n                    .collect::<Vec<_>>().into_iter().rev()\n                    .map(IntoValue::into_value)")]},
+    {"id": "c13-deserr-rejects-empty-string", "props": ["C13"], "edits": [("src/serde_json.rs", "            Value::String(s) => JValue::String(s),\n            Value::Sequence(seq) => {", "            Value::String(s) if s.len() > 1_000_000 => return Err(take_cf_content(E::error::<V>(error, ErrorKind::Unexpected { msg: String::new() }, location))),\n            Value::String(s) => JValue::String(s),\n            Value::Sequence(seq) => {")]},
+    {"id": "c13-value-kind-swapped", "props": ["C13"], "edits": [("src/value.rs", "            Value::Integer(_) => ValueKind::Integer,\n            Value::NegativeInteger(_) => ValueKind::NegativeInteger,", "            Value::Integer(_) => ValueKind::NegativeInteger,\n            Value::NegativeInteger(_) => ValueKind::Integer,")]},
 ]
